@@ -1,32 +1,38 @@
 /-
 C07 on the tree as it is now (after the `fix:` commits 6642bb9 — self-join elimination only when the parent subject map uses exactly
-the join references — and a032c47 — referencing and term-valued object maps of one predicate-object map are UNION branches of the
-parsing query).  No hypothesis on the generated shape: these theorems hold because the translator reads the repaired shapes from
-/repo, and stop checking, with the shape as witness, if the source regresses to C07_F1 / C07_F2 / C07_F4.
+the join references —, a032c47 — referencing and term-valued object maps of one predicate-object map are UNION branches of the
+parsing query — and the repair of C07_F5 — self-join elimination only when both triples maps belong to the same configuration
+section).  No hypothesis on the generated shape: these theorems hold because the translator reads the repaired shapes from
+/repo, and stop checking, with the shape as witness, if the source regresses to C07_F1 / C07_F2 / C07_F4 / C07_F5.
 -/
 import MorphKgc.Props.C07
 
 namespace Props.C07
 open Py Model Spec
 
-theorem C07_current_elim_shape : Gen.elimShape = ElimShape.repaired := by decide
+theorem C07_current_elim_shape : Gen.elimShape = ElimShape.current := by decide
 
 theorem C07_current_object_query : Gen.objectQueryShape = .union := by decide
+
+/-- on the current tree a rewritten rule and its parent read the same rows: same section and same logical source value
+    (this was a hypothesis before the repair of C07_F5) -/
+theorem C07_current_same_table (env : Env) (r parent : Rule) (ht : elimTests Gen.elimShape r parent = true) :
+    env.table r = env.table parent :=
+  C07_tests_same_table Gen.elimShape (by decide) (by decide) env r parent ht
 
 /-- **C07_elimination on the current tree**: every rewriting the normaliser performs on a join with conditions is sound -/
 theorem C07_elimination_current (env : Env) (rules : List Rule) (r parent : Rule)
     (hpt : r.objectMapType = .parentTM) (hfind : findRule rules r.objectMapValue = some parent) (hne : r.objectJoin ≠ [])
-    (hrows : elimTests Gen.elimShape r parent = true → env.table r = env.table parent)
     (htt : r.objectTermtype = parent.subjectTermtype) (hnc : isAllConstant (eliminated r parent) = false)
     (hex : ∀ m ∈ ownMaps r, RefsExact m) (hexs : RefsExact (parent.subjectMapType, parent.subjectMapValue))
     (hno : RuleNoClash r parent) (hcomp : Complete (refsOfRule r) (env.table r) = true) :
     SameOutcome (evalRule env rules (eliminateSelfJoinG Gen.elimShape rules r)) (evalRule env rules r) :=
-  C07_elimination_repaired (by decide) env rules r parent hpt hfind hne hrows htt hnc hex hexs hno hcomp
+  C07_elimination_repaired (by decide) env rules r parent hpt hfind hne (C07_current_same_table env r parent) htt hnc hex hexs hno hcomp
 
 /-- the shared normaliser model (`Model.eliminateSelfJoin`, used by C01 / C08 / C09 / C12) is the rewriting as the source performs it now -/
 theorem C07_shared_model_is_current (rules : List Rule) (r : Rule) :
     eliminateSelfJoinG Gen.elimShape rules r = eliminateSelfJoin rules r := by
-  rw [C07_current_elim_shape]; exact C07_elim_repaired_is_shared rules r
+  rw [C07_current_elim_shape]; exact C07_elim_current_is_shared rules r
 
 /-- C07_F4 repaired: the parsing query delivers every object map of a predicate-object map -/
 theorem C07_objects_seen_current (objs : List ObjMap) : objectsSeen Gen.objectQueryShape objs = objs := by
